@@ -58,7 +58,7 @@ GENERAL_SCALARS = [0.1, -0.3, 1.0 / 3, 2.5, -1.7, 0.7]
 
 def EXPECTED_BRANCHES(ctx=None):
     return (fc.history_expected_branches() + fc.wide_expected_branches('C09') +
-            fc.forms_expected_branches() + LEAVES_BRANCHES +
+            fc.forms_expected_branches() + LEAVES_BRANCHES + REACH_BRANCHES +
             ['lipschitz/nested/{}/{}'.format(k, f) for k in NESTED_KINDS for f, _ in NESTED_FACTORS])
 
 # --------------------------------------------------------------------------
@@ -1076,6 +1076,422 @@ def leaves_replay(ctx, case):
     return '; '.join(c.msgs) or None
 
 
+
+# --------------------------------------------------------------------------
+# ROUND 5: strata that REACH code of the anchored files no other stream executes (measured by
+# tools/covmap.py): derivative of the FunctionalComp gradient, L1Gradient.derivative,
+# NumericalGradient.derivative, simple_functional (+ its convex_conj swap), SeparableSum.__getitem__,
+# LpNorm values for p in {0, 3, inf, -inf} (+ unknown exponent), gradient accessors of classes
+# that document none, IndicatorGroupL1UnitBall values, the grad_lipschitz setter.
+
+REACH_BRANCHES = (
+    ['reach/comp-grad-derivative/' + b for b in ('scale', 'mul', 'mat', 'nonlinear-raises')] +
+    ['reach/l1-gradient-derivative', 'reach/numerical-gradient-derivative',
+     'reach/grad-lipschitz-setter'] +
+    ['reach/simple-functional/' + b for b in ('grad-callable', 'grad-operator', 'no-fcall-raises',
+                                              'no-grad-raises', 'convex-conj-swap', 'grad-lip',
+                                              'model')] +
+    ['reach/sepsum-getitem/' + b for b in ('int', 'slice')] +
+    ['reach/lp-values/' + b for b in ('p0', 'p3', 'pinf', 'pminf', 'unknown-exponent-raises',
+                                     'no-gradient')] +
+    ['reach/no-gradient/' + b for b in ('IndicatorSimplex', 'IndicatorSumConstraint',
+                                        'IndicatorGroupL1UnitBall', 'IndicatorNuclearNormUnitBall',
+                                        'NuclearNorm')] +
+    ['reach/ind-groupl1-value/' + b for b in ('inside', 'outside')] +
+    ['reach/nuclear-value/' + b for b in ('inside', 'outside')])
+
+
+def _raises(fn, exc):
+    st, _ = safe_call(fn)
+    return st != 'ok' and exc in st, st
+
+
+def reach_case(ctx, name, S, P, lines, pend):
+    """One case of a round-5 stratum; deterministic in (name, S, P). Oracles on the real code."""
+    import odl
+    import odl.solvers as sol
+    from odl.solvers.functional import functional as F
+    sp = S.space
+    desc = {'reach': name, 'space': S.name, 'P': P}
+    key = 'reach {} space={}({})'.format(name, S.name, S.kind)
+
+    def bad(what):
+        ctx.violation(key, what, desc)
+
+    if name == 'comp-grad-derivative':
+        b = None if P['b'] is None else S.elem(P['b'])
+        inner = (sol.L2NormSquared(sp) if P['inner'] == 'l2sq' else
+                 sol.QuadraticForm(operator=odl.ScalingOperator(sp, 2.0), vector=b, constant=1.0))
+        op = fc.build_op(P['op'], S)
+        st, Fc = safe_call(lambda: (inner * op) if P['via_ops'] else F.FunctionalComp(inner, op))
+        if st != 'ok':
+            return bad('constructing raised ' + st)
+        x, d = S.elem(P['x']), S.elem(P['d'])
+        if P['op'][0] == 'pow':
+            ok, st = _raises(lambda: Fc.gradient.derivative(x), 'NotImplementedError')
+            if not ok:
+                return bad('gradient.derivative(x) for a non-linear operator: ' + st)
+            ctx.hit('reach/comp-grad-derivative/nonlinear-raises')
+            ctx.case(('reach', name, S.kind, 'pow'))
+            return
+        st, hd = safe_call(lambda: S.flat(Fc.gradient.derivative(x)(d)))
+        if st != 'ok':
+            return bad('gradient.derivative(x)(d) raised ' + st)
+        # oracle: the gradient of a quadratic is affine, so the central difference is exact
+        G = Fc.gradient
+        ref = S.flat((G(x + d) - G(x - d)) / 2.0)
+        if hd != ref:
+            return bad('gradient.derivative(x)(d) = {!r} but (grad(x+d) - grad(x-d))/2 = {!r}'.format(
+                hd[:6], ref[:6]))
+        ctx.hit('reach/comp-grad-derivative/' + P['op'][0])
+        ctx.case(('reach', name, S.kind, P['op'][0], P['inner']) if any(hd) else None)
+        return
+
+    if name == 'l1-gradient-derivative':
+        f = sol.L1Norm(sp)
+        x, d = S.elem(P['x']), S.elem(P['d'])
+        st, hd = safe_call(lambda: S.flat(f.gradient.derivative(x)(d)))
+        if st != 'ok':
+            return bad('L1Norm.gradient.derivative(x)(d) raised ' + st)
+        h = 2.0 ** -7
+        ref = S.flat((f.gradient(x + h * d) - f.gradient(x - h * d)) / (2 * h))
+        if hd != ref or any(hd):
+            return bad('L1Norm.gradient.derivative(x)(d) = {!r}, differences of the gradient give '
+                       '{!r} (away from the kinks both are 0)'.format(hd[:6], ref[:6]))
+        ctx.hit('reach/l1-gradient-derivative')
+        ctx.case(('reach', name, S.kind))
+        return
+
+    if name == 'numerical-gradient-derivative':
+        from odl.solvers.functional.derivatives import NumericalGradient
+        f = sol.L2NormSquared(sp)
+        x, d = S.elem(P['x']), S.elem(P['d'])
+        st, res = safe_call(lambda: (NumericalGradient(f, method=P['method']),))
+        if st != 'ok':
+            return bad('NumericalGradient raised ' + st)
+        NG = res[0]
+        st, hd = safe_call(lambda: S.flat(NG.derivative(x)(d)))
+        if st != 'ok':
+            return bad('NumericalGradient.derivative(x)(d) raised ' + st)
+        # oracle: the Hessian estimate agrees with central differences of the SAME numerical gradient
+        ref = S.flat((NG(x + d) - NG(x - d)) / 2.0)
+        sc = max([1.0] + [abs(t) for t in ref])
+        if not all(close(a, b, sc, 1e-3, 1e-3) for a, b in zip(hd, ref)):
+            return bad('NumericalGradient.derivative(x)(d) = {!r} but differences of the numerical '
+                       'gradient give {!r}'.format(hd[:6], ref[:6]))
+        ctx.hit('reach/numerical-gradient-derivative')
+        ctx.case(('reach', name, S.kind, P['method']) if any(ref) else None)
+        return
+
+    if name == 'grad-lipschitz-setter':
+        f = sol.L2NormSquared(sp) if P['leaf'] == 'l2sq' else sol.Huber(sp, 0.5)
+        L0 = float(f.grad_lipschitz)
+        st, _ = safe_call(lambda: setattr(f, 'grad_lipschitz', P['value']))
+        if st != 'ok':
+            return bad('setting grad_lipschitz raised ' + st)
+        L = f.grad_lipschitz
+        if not isinstance(L, float) or L != float(P['value']):
+            return bad('grad_lipschitz = {!r} after setting {!r}'.format(L, P['value']))
+        g = (3.0 * f).grad_lipschitz          # propagation uses the value that was set
+        if g != 3.0 * L:
+            return bad('(3*f).grad_lipschitz = {!r} after setting f.grad_lipschitz = {!r}'.format(g, L))
+        if L >= L0:                            # still a valid bound: the pair oracle applies
+            lipschitz_oracle(ctx, 3.0 * f, S, g, None, dict(desc, recipe=['lscal', 3.0, [P['leaf']]]),
+                             key, ('lscal', P['leaf']), n_pairs=4)
+        ctx.hit('reach/grad-lipschitz-setter')
+        ctx.case(('reach', name, S.kind, P['leaf']))
+        return
+
+    if name == 'simple-functional':
+        a, c = float(P['a']), float(P['c'])
+        u = S.elem(P['u'])
+        fcall = lambda z: a * z.inner(z) + z.inner(u) + c      # noqa
+        gfun = lambda z: 2 * a * z + u                         # noqa
+        ccf = lambda z: 0.5 * z.inner(z)                       # noqa  (a second, independent pair)
+        ccg = lambda z: 1.0 * z                                # noqa
+        if P['grad_kind'] == 'operator':
+            grad = 2 * a * odl.IdentityOperator(sp) + odl.ConstantOperator(u)
+        else:
+            grad = gfun
+        st, f = safe_call(lambda: F.simple_functional(sp, fcall=fcall, grad=grad, grad_lip=2 * abs(a),
+                                                      convex_conj_fcall=ccf, convex_conj_grad=ccg,
+                                                      convex_conj_grad_lip=1.0))
+        if st != 'ok':
+            return bad('simple_functional raised ' + st)
+        x, d = S.elem(P['x']), S.elem(P['d'])
+        st, res = safe_call(lambda: (float(f(x)), S.flat(f.gradient(x)), float(f.derivative(x)(d)),
+                                     float(f.grad_lipschitz)))
+        if st != 'ok':
+            return bad('value / gradient / derivative raised ' + st)
+        v, gl, dd, L = res
+        ev, eg = float(fcall(x)), S.flat(gfun(x))
+        if v != ev or gl != eg:
+            return bad('f(x), gradient(x) = {!r}, {!r} but the supplied callables give {!r}, {!r}'.format(
+                v, gl[:6], ev, eg[:6]))
+        gd = float(f.gradient(x).inner(d))
+        if not close(dd, gd, 1.0, 1e-12, 1e-12):
+            return bad('derivative(x)(d) = {!r} but <gradient(x), d> = {!r}'.format(dd, gd))
+        fst, D = fd_oracle(f, S, P['x'], P['d'])
+        if fst == 'ok' and abs(D - gd) > 2e-6 * max(1.0, abs(D), abs(gd)):
+            return bad('<gradient(x), d> = {!r} but central differences give {!r}'.format(gd, D))
+        ctx.hit('reach/simple-functional/grad-' + ('operator' if P['grad_kind'] == 'operator' else 'callable'))
+        if L != 2 * abs(a):
+            return bad('grad_lipschitz = {!r}, supplied {!r}'.format(L, 2 * abs(a)))
+        lipschitz_oracle(ctx, f, S, L, None, dict(desc, recipe=['l2sq']), key, ('simple',), n_pairs=4)
+        ctx.hit('reach/simple-functional/grad-lip')
+        # convex_conj swaps the two supplied pairs, twice gives the original back
+        st, res = safe_call(lambda: (float(f.convex_conj(x)), S.flat(f.convex_conj.gradient(x)),
+                                     float(f.convex_conj.grad_lipschitz),
+                                     float(f.convex_conj.convex_conj(x)),
+                                     S.flat(f.convex_conj.convex_conj.gradient(x))))
+        if st != 'ok':
+            return bad('convex_conj value / gradient raised ' + st)
+        if res != (float(ccf(x)), S.flat(ccg(x)), 1.0, v, gl):
+            return bad('convex_conj / biconjugate of the simple functional do not return the supplied '
+                       'callables: {!r}'.format(res[:1] + res[2:4]))
+        ctx.hit('reach/simple-functional/convex-conj-swap')
+        # absent callables raise NotImplementedError (never None / AttributeError)
+        f0 = F.simple_functional(sp, grad=gfun)
+        ok, st = _raises(lambda: f0(x), 'NotImplementedError')
+        if not ok:
+            return bad('calling a simple_functional without fcall: ' + st)
+        ctx.hit('reach/simple-functional/no-fcall-raises')
+        f1 = F.simple_functional(sp, fcall=fcall)
+        ok, st = _raises(lambda: f1.gradient, 'NotImplementedError')
+        if not ok:
+            return bad('gradient of a simple_functional without grad: ' + st)
+        ctx.hit('reach/simple-functional/no-grad-raises')
+        ctx.case(('reach', name, S.kind, P['grad_kind']) if any(gl) else None)
+        # model: the same functional is  0 + a<x,x> + <x,u> + c  = qp|a|1|u|c|const|0
+        if not S.is_pspace or True:
+            w = 'qp|{}|1|{}|{}|const|0'.format(fs(a), fl(P['u']), fs(c))
+            dm = dict(desc, recipe=['simple'], x=P['x'], d=P['d'])
+            lines.append('val f={} w={} x={}'.format(w, fc.wl(S), fl(P['x'])))
+            pend.append(('val', dm, v, S, ('simple',), 'exact'))
+            lines.append('grad f={} w={} x={}'.format(w, fc.wl(S), fl(P['x'])))
+            pend.append(('grad', dm, gl, S, ('simple',), 'exact'))
+            lines.append('deriv f={} w={} x={} d={}'.format(w, fc.wl(S), fl(P['x']), fl(P['d'])))
+            pend.append(('deriv', dm, dd, S, ('simple',), 'exact'))
+            ctx.hit('reach/simple-functional/model')
+        return
+
+    if name == 'sepsum-getitem':
+        subs = [fc.SpaceInfo('part', sub, 'part') for sub in sp]
+        parts = [fc.build(r, Si) for r, Si in zip(P['parts'], subs)]
+        f = sol.SeparableSum(*parts)
+        x = S.elem(P['x'])
+        i = P['index']
+        st, g = safe_call(lambda: f[i])
+        if st != 'ok':
+            return bad('f[{}] raised {}'.format(i, st))
+        if g is not parts[i]:
+            return bad('f[{}] is not the {}-th summand'.format(i, i))
+        ctx.hit('reach/sepsum-getitem/int')
+        lo, hi = P['slice']
+        st, h = safe_call(lambda: f[lo:hi])
+        if st != 'ok':
+            return bad('f[{}:{}] raised {}'.format(lo, hi, st))
+        xs = h.domain.element([x[k] for k in range(lo, hi)])
+        st, res = safe_call(lambda: (float(h(xs)), [t for k, part in enumerate(h.gradient(xs))
+                                                    for t in subs[lo + k].flat(part)]))
+        if st != 'ok':
+            return bad('value / gradient of f[{}:{}] raised {}'.format(lo, hi, st))
+        ev = sum(float(parts[k](x[k])) for k in range(lo, hi))
+        eg = [t for k in range(lo, hi) for t in subs[k].flat(parts[k].gradient(x[k]))]
+        if not isinstance(h, sol.SeparableSum) or res != (ev, eg):
+            return bad('f[{}:{}](x), gradient = {!r} but the summands give {!r}'.format(
+                lo, hi, (res[0], res[1][:6]), (ev, eg[:6])))
+        ctx.hit('reach/sepsum-getitem/slice')
+        ctx.case(('reach', name, S.name, i, lo, hi))
+        return
+
+    if name == 'lp-values':
+        pexp = P['p']
+        x = S.elem(P['x'])
+        xs = P['x']
+        if pexp == 'nan':
+            ok, st = _raises(lambda: sol.LpNorm(sp, float('nan'))(x), 'RuntimeError')
+            if not ok:
+                return bad('LpNorm(exponent=nan)(x): ' + st)
+            ctx.hit('reach/lp-values/unknown-exponent-raises')
+            ctx.case(('reach', name, S.kind, 'nan'))
+            return
+        pv = {'0': 0.0, '3': 3.0, 'inf': float('inf'), '-inf': float('-inf')}[pexp]
+        st, f = safe_call(sol.LpNorm, sp, pv)
+        if st != 'ok':
+            return bad('LpNorm({}) raised {}'.format(pexp, st))
+        st, v = safe_call(lambda: float(f(x)))
+        if st != 'ok':
+            return bad('LpNorm({})(x) raised {}'.format(pexp, st))
+        if pexp == '0':
+            ev = math.fsum(w for w, t in zip(S.w, xs) if t != 0)
+        elif pexp == '3':
+            ev = math.fsum(w * abs(t) ** 3 for w, t in zip(S.w, xs)) ** (1.0 / 3)
+        elif pexp == 'inf':
+            ev = max(abs(t) for t in xs)
+        else:
+            ev = min(abs(t) for t in xs)
+        if not close(v, ev, 1.0, 1e-12, 1e-12):
+            return bad('LpNorm({})(x) = {!r}, documented value {!r}'.format(pexp, v, ev))
+        ctx.hit('reach/lp-values/p' + {'0': '0', '3': '3', 'inf': 'inf', '-inf': 'minf'}[pexp])
+        ok, st = _raises(lambda: f.gradient, 'NotImplementedError')
+        if not ok:
+            return bad('LpNorm({}).gradient: {}'.format(pexp, st))
+        ctx.hit('reach/lp-values/no-gradient')
+        ctx.case(('reach', name, S.kind, pexp) if v != 0 else None)
+        return
+
+    if name == 'no-gradient':
+        cls = P['cls']
+        msp = odl.ProductSpace(odl.ProductSpace(sp[0], 2), 3) if cls.endswith(('NuclearNorm', 'NuclearNormUnitBall')) else None
+        mk = {'IndicatorSimplex': lambda: sol.IndicatorSimplex(sp),
+              'IndicatorSumConstraint': lambda: sol.IndicatorSumConstraint(sp),
+              'IndicatorGroupL1UnitBall': lambda: sol.IndicatorGroupL1UnitBall(sp),
+              'IndicatorNuclearNormUnitBall': lambda: sol.IndicatorNuclearNormUnitBall(msp),
+              'NuclearNorm': lambda: sol.NuclearNorm(msp)}[cls]
+        st, f = safe_call(mk)
+        if st != 'ok':
+            return bad('constructing {} raised {}'.format(cls, st))
+        ok, st = _raises(lambda: f.gradient, 'NotImplementedError')
+        if not ok:
+            return bad('{}.gradient must raise NotImplementedError (no gradient documented): {}'.format(
+                cls, st))
+        ok, st = _raises(lambda: f.derivative(f.domain.one()), 'NotImplementedError')
+        if not ok:
+            return bad('{}.derivative(x) must raise NotImplementedError: {}'.format(cls, st))
+        ctx.hit('reach/no-gradient/' + cls)
+        ctx.case(('reach', name, S.kind, cls))
+        return
+
+    if name == 'nuclear-value':
+        # matrix-valued fields over the first factor of S: 3 x 2 matrices at every point
+        base = sp[0]
+        msp = odl.ProductSpace(odl.ProductSpace(base, 2), 3)
+        m = base.size
+        vals = P['x']
+        x = msp.element([[np.array(vals[(i * 2 + j) * m:(i * 2 + j + 1) * m]).reshape(base.shape)
+                          for j in range(2)] for i in range(3)])
+        sve = float(P['sv_exp'])
+        st, res = safe_call(lambda: (float(sol.NuclearNorm(msp, 1, sve)(x)),
+                                     float(sol.IndicatorNuclearNormUnitBall(msp, 1, sve)(x))))
+        if st != 'ok':
+            return bad('NuclearNorm / IndicatorNuclearNormUnitBall value raised ' + st)
+        A = np.array(vals, dtype=float).reshape(3, 2, m)
+        bw = fc.SpaceInfo('part', base, 'part').w
+        per = []
+        for k in range(m):
+            sv = np.linalg.svd(A[:, :, k], compute_uv=False)
+            per.append(float(sv.sum()) if sve == 1 else float(np.sqrt((sv * sv).sum())))
+        ev = math.fsum(w * t for w, t in zip(bw, per))
+        if not close(res[0], ev, 1.0, 1e-10, 1e-12):
+            return bad('NuclearNorm(x) = {!r}, singular values give {!r}'.format(res[0], ev))
+        if abs(ev - 1) > 1e-6 and res[1] != (0.0 if ev <= 1 else float('inf')):
+            return bad('IndicatorNuclearNormUnitBall(x) = {!r} but the norm is {!r}'.format(res[1], ev))
+        ctx.hit('reach/nuclear-value/' + ('inside' if ev <= 1 else 'outside'))
+        ctx.case(('reach', name, S.name, P['sv_exp'], ev <= 1) if ev != 0 else None)
+        return
+
+    if name == 'ind-groupl1-value':
+        pexp = {'1': 1.0, '2': 2.0, 'inf': float('inf')}[P['p']]
+        st, f = safe_call(sol.IndicatorGroupL1UnitBall, sp, pexp)
+        if st != 'ok':
+            return bad('constructing raised ' + st)
+        x = S.elem(P['x'])
+        st, v = safe_call(lambda: float(f(x)))
+        if st != 'ok':
+            return bad('f(x) raised ' + st)
+        comps = [np.asarray(part, dtype=float).ravel() for part in x]
+        A = np.abs(np.array(comps))
+        pn = A.max(axis=0) if P['p'] == 'inf' else (A.sum(axis=0) if P['p'] == '1' else
+                                                    np.sqrt((A * A).sum(axis=0)))
+        inside = bool(pn.max() <= 1)
+        if v != (0.0 if inside else float('inf')):
+            return bad('f(x) = {!r} but max pointwise {}-norm = {!r}'.format(v, P['p'], float(pn.max())))
+        ctx.hit('reach/ind-groupl1-value/' + ('inside' if inside else 'outside'))
+        ctx.case(('reach', name, S.name, P['p'], inside))
+        return
+    raise KeyError(name)
+
+
+def reach_stream(ctx, lines, pend, quick):
+    rng = ctx.rng
+    reps = 2 if quick else 8
+    for S in fc.all_spaces():
+        n = S.size
+        pt = lambda lo=-8, hi=8, den=4: fc.rvec(rng, n, lo, hi, den)        # noqa
+        for _ in range(reps):
+            ops = [['scale', rng.choice([2.0, -0.5, 3.0])],
+                   ['mul', [rng.choice([1.0, 2.0, -1.0, 0.5]) for _ in range(n)]], ['pow', 2]]
+            if S.kind in ('rn', 'rn-const'):
+                ops.append(['mat', rand_matrix(rng, n, True)])
+            for op in ops:
+                reach_case(ctx, 'comp-grad-derivative', S,
+                           {'inner': rng.choice(['l2sq', 'quad']), 'b': rng.choice([None, pt()]),
+                            'op': op, 'via_ops': rng.random() < 0.5, 'x': pt(), 'd': pt(-4, 4, 2)},
+                           lines, pend)
+            reach_case(ctx, 'l1-gradient-derivative', S,
+                       {'x': [rng.choice([-1, 1]) * rng.randint(1, 8) / 4.0 for _ in range(n)],
+                        'd': pt(-4, 4, 2)}, lines, pend)
+            if not S.is_pspace and S.space.ndim == 1:   # documented domain: flat TensorSpace indexing
+                reach_case(ctx, 'numerical-gradient-derivative', S,
+                           {'method': rng.choice(['forward', 'backward', 'central']),
+                            'x': pt(-4, 4, 2), 'd': pt(-2, 2, 1)}, lines, pend)
+            reach_case(ctx, 'grad-lipschitz-setter', S,
+                       {'leaf': 'l2sq' if S.is_pspace else rng.choice(['l2sq', 'huber']),
+                        'value': rng.choice([2, 2.5, 4.0, 7])}, lines, pend)
+            for gk in ('callable', 'operator'):
+                reach_case(ctx, 'simple-functional', S,
+                           {'a': rng.choice([1.0, 0.5, -2.0, 3.0]), 'c': rng.choice([0.0, 1.0, -2.5]),
+                            'u': pt(), 'grad_kind': gk, 'x': pt(), 'd': pt(-4, 4, 2)}, lines, pend)
+            for pexp in ('0', '3', 'inf', '-inf', 'nan'):
+                if S.is_pspace and pexp in ('inf', '-inf', '3', '0'):
+                    continue        # documented domain of these branches: TensorSpace ufuncs
+                xs = pt()
+                if pexp == '0':
+                    xs = [t if rng.random() < 0.6 else 0.0 for t in xs]
+                reach_case(ctx, 'lp-values', S, {'p': pexp, 'x': xs}, lines, pend)
+            for cls in ('IndicatorSimplex', 'IndicatorSumConstraint'):
+                reach_case(ctx, 'no-gradient', S, {'cls': cls}, lines, pend)
+            if S.is_pspace:
+                k = len(S.space)
+                parts = [rng.choice([['l2sq'], ['l1'], ['lscal', 2.0, ['l2sq']], ['const', 1.5]])
+                         for _ in range(k)]
+                lo = rng.randrange(k)
+                reach_case(ctx, 'sepsum-getitem', S,
+                           {'parts': parts, 'x': pt(), 'index': rng.randrange(k),
+                            'slice': [lo, rng.randint(lo + 1, k)]}, lines, pend)
+                if S.space.is_power_space:
+                    for cls in ('IndicatorGroupL1UnitBall', 'IndicatorNuclearNormUnitBall', 'NuclearNorm'):
+                        reach_case(ctx, 'no-gradient', S, {'cls': cls}, lines, pend)
+                    m = S.space[0].size
+                    for sve in (1, 2):
+                        xs = [rng.randint(-8, 8) / 4.0 for _ in range(6 * m)]
+                        reach_case(ctx, 'nuclear-value', S, {'sv_exp': sve, 'x': xs}, lines, pend)
+                        reach_case(ctx, 'nuclear-value', S,
+                                   {'sv_exp': sve, 'x': [t / 64.0 for t in xs]}, lines, pend)
+                    for pexp in ('1', '2', 'inf'):
+                        for xs in (pt(-4, 4, 4), pt(-2, 2, 4), [1.0] + [0.0] * (n - 1)):
+                            reach_case(ctx, 'ind-groupl1-value', S, {'p': pexp, 'x': xs}, lines, pend)
+
+
+def reach_replay(ctx, case):
+    c = _RecCtx(ctx.rng)
+    reach_case(c, case['reach'], fc.get_space(case['space']), case['P'], [], [])
+    return '; '.join(c.msgs) or None
+
+
+class _RecCtx(object):
+    """Minimal recording context for replays of the round-4/5 strata."""
+    def __init__(self, rng):
+        self.rng, self.msgs, self.samples, self.evaluations = rng, [], [], 0
+        self.signatures = set()
+    def hit(self, *a, **k): pass       # noqa
+    def case(self, *a, **k): pass      # noqa
+    def err(self, *a, **k): pass       # noqa
+    def violation(self, key, what, case=None):
+        self.msgs.append(key + ': ' + what)
+
+
 # --------------------------------------------------------------------------
 
 def coverage_by_introspection(ctx):
@@ -1164,6 +1580,7 @@ def run(ctx, deep=False):
     fc.wide_stream(ctx, 'C09', 2 if quick else 8)
     fc.forms_stream(ctx, 'C09')
     leaves_stream(ctx, lines, pend, quick)
+    reach_stream(ctx, lines, pend, quick)
     outs = core.run_driver('C09', lines)
     compare(ctx, pend, outs)
     ctx.extra['model_lines'] = len(lines)
@@ -1176,6 +1593,7 @@ def search(ctx, broken):
     spaces = fc.all_spaces()
     lines, pend = [], []
     leaves_stream(ctx, [], [], False)       # round-4 leaves: oracles only, thorough amount
+    reach_stream(ctx, [], [], False)
     if ctx.violations:
         return
     for S in spaces:
@@ -1199,6 +1617,8 @@ def replay(ctx, case):
         return fc.forms_replay(ctx, case)
     if case.get('leaves'):
         return leaves_replay(ctx, case)
+    if case.get('reach'):
+        return reach_replay(ctx, case)
     """Re-run the oracle on one recorded case; returns a description if it still fails."""
     S = fc.get_space(case['space'])
     r = case['recipe']
